@@ -1,9 +1,9 @@
 (* C12 — statements of Props/C12.v that combine several lemmas (glue proofs only). *)
-From Coq Require Import Reals Arith List QArith Qcanon Lra Lia.
+From Coq Require Import Reals Arith List QArith Qcanon Lra Lia String.
 From Coquelicot Require Import Coquelicot.
 From QV.Core Require Import OF Sums Mat QcOF ROF.
-From QV.Model Require Import C12_Loss.
-From QV.Proofs Require Import C12_Loss C12_Config C12_RelEntropy C12_RelEntropyR.
+From QV.Model Require Import C12_Loss C12_Mixed C12_Dispatch.
+From QV.Proofs Require Import C12_Loss C12_Config C12_RelEntropy C12_RelEntropyR C12_Mixed C12_Dispatch.
 Import ListNotations.
 
 Lemma main_se_hessian_is_twice_half_and_symmetric : forall (R : CR) ns m nv (W : @wts R) (A : @mat R) (b q v : @vec R),
@@ -164,6 +164,28 @@ Lemma main_relative_entropy_custom_weights_ignored_refuted :
     re_grad Qc_OF 1 2 1 (config_re_prefix true (Some custom) None) weps weps A b q v O
       <> re_grad Qc_OF 1 2 1 (config_re_spec true (Some custom)) weps weps A b q v O.
 Proof. split; [reflexivity|exact re_custom_witness]. Qed.
+
+Lemma main_se_mixed_outcome_counts : forall (R : CR) nv (Bs : list (@sblock R)) (v h : @vec R),
+  mix_value nv Bs v = mix_spec nv Bs v /\
+  (blocks_sym Bs ->
+     mix_value nv Bs (vadd v h)
+     = cadd R (cadd R (mix_value nv Bs v) (dot nv (mix_grad nv Bs v) h)) (qfm nv (mix_hess_half nv Bs v) h)) /\
+  (forall al, mix_grad nv Bs (vadd v h) al
+     = cadd R (mix_grad nv Bs v al)
+              (mv nv (fun a c => cadd R (mix_hess_half nv Bs v a c) (mix_hess_half nv Bs v a c)) h al)).
+Proof. intros. split; [apply mix_value_is_spec|]. split; [apply mix_taylor|intros; apply mix_grad_shift]. Qed.
+
+Lemma main_decision_tables : forall (R : CR),
+  (forall md (c : @wts R) k (cur : @wts R), set_weights_by_mode md c k cur = run_action (action_of md) c k cur) /\
+  (forall (cm : bool) (c cur : option (@vec R)),
+     config_re cm c cur = run_action_re (re_dispatch (Some (if cm then "custom" else "identity")%string)) c cur) /\
+  (forall mw hw mw', option_accepts se_modes mw hw = OOk mw' ->
+     se_dispatch mw' = AReset \/ se_dispatch mw' = ACustom \/ exists ub, se_dispatch mw' = AInverse ub) /\
+  (forall mw hw mw', option_accepts re_modes mw hw = OOk mw' -> re_dispatch mw' = AReset \/ re_dispatch mw' = ACustom) /\
+  (forall mw, option_accepts se_modes mw true = OOk (Some "custom"%string) /\ option_accepts re_modes mw true = OOk (Some "custom"%string)).
+Proof. intros R. split; [intros; apply set_weights_by_mode_is_table|]. split; [intros; apply config_re_is_table|].
+  split; [apply se_accepted_mode_has_branch|]. split; [apply re_accepted_mode_has_branch|].
+  intros mw. split; apply option_with_weights_is_custom; cbn; auto. Qed.
 
 Lemma main_re_fast_eq_generic : forall (F : OF) (ln : F -> F) ns m (w ew : option (@vec F)) epsq epsp (A : @mat F) (p q : @vec F),
   ew_matches F m w ew (ns * m) -> (forall i, (i < ns * m)%nat -> kle F (c0 F) (q i)) ->
